@@ -128,9 +128,11 @@ def band_ks(r, p):
     return sorted(k for k in ks if 1 <= k < p)
 
 
-def big_case(r, n, p, shape, ks):
+def big_case(r, n, p, shape, ks, unit=1):
     """integer matrix of the given shape whose magnitudes fit the specification's 31-bit budget (the amplitude of the
-    entries and the steepness of the column ramp are reduced until sum sigma^2 <= 140000)"""
+    entries and the steepness of the column ramp are reduced until sum sigma^2 <= 140000). `unit` > 1: the harness runs
+    the implementation on unit * x and reports lengths in units of `unit` -- the same matrix at a larger magnitude (the
+    absolute tolerance of LOBPCG makes the magnitude matter), the specification still sees x."""
     for base, div in [(3, 1), (2, 1), (1, 1), (2, 2), (1, 2), (1, 3), (1, 4), (1, 6)]:
         sc = [1] * p
         off = [0] * p
@@ -145,7 +147,7 @@ def big_case(r, n, p, shape, ks):
         if in_domain_big(x):
             q = [[off[j] + r.randint(-3, 3) for j in range(p)], [r.randint(-5, 5) for _ in range(p)]]
             return {"kind": "pca", "inp": {"n": n, "p": p, "x": x, "q": q, "form": r.choice(["owned", "view", "fortran"]),
-                                           "ks": ks, "zr": 3, "shape": "%s/%d/%d" % (shape, base, div)}}
+                                           "ks": ks, "zr": 3, "unit": unit, "shape": "%s/%d/%d" % (shape, base, div)}}
     return None
 
 
@@ -164,21 +166,22 @@ def big_cases(ctx):
         for (n, p, sh) in plan:
             # p = 20: k = 2, 3 are the sizes that hit the NaN panic of the unscaled LOBPCG run
             ks = band_ks(r, p) if p < 20 else sorted({2, 3} | set(band_ks(r, p)))
-            c = big_case(r, n, p, sh, ks)
+            # magnitude x10 for the large problems and the badly scaled / offset shapes
+            c = big_case(r, n, p, sh, ks, 10 if p >= 16 or sh in ("scaled", "offscaled", "offramp") else 1)
             if c:
                 out.append(c)
     else:
         for p in (6, 7, 8, 9, 10, 11, 12):
             for sh in SHAPES:
                 for n in (5 * p, 2 * p + 3):
-                    c = big_case(r, n, p, sh, list(range(1, p + 1)))          # every k
+                    c = big_case(r, n, p, sh, list(range(1, p + 1)), r.choice([1, 4, 10]))          # every k
                     if c:
                         out.append(c)
         for (n, p) in ((60, 16), (100, 20), (200, 20), (150, 30), (300, 30)):
             for sh in ("ramp", "scaled", "offscaled", "offramp", "iso"):
                 ks = list(range(1, p + 1)) if (n, p) in ((100, 20), (150, 30)) and sh in ("ramp", "offscaled") else \
                     sorted(set(band_ks(r, p) + [2, 3, p]))
-                c = big_case(r, n, p, sh, ks)
+                c = big_case(r, n, p, sh, ks, r.choice([1, 10, 10]))
                 if c:
                     out.append(c)
     return out
